@@ -117,6 +117,12 @@ func (propC14) Gen(seed uint64, ex map[string]bool) interface{} {
 		for i := 0; i < k; i++ {
 			z.Ns = append(z.Ns, pick(r, c14SizeNs[3:]))
 		}
+		switch z.Family {
+		case 17: // output length / range size
+			z.Ns = append(z.Ns, pick(r, []int{4095, 4096, 9999, 10000, 10001, 20000, 65536}))
+		case 5, 1, 14: // literal sizes
+			z.Ns = append(z.Ns, pick(r, []int{4096, 5000, 10001, 33000}))
+		}
 		sc.Size = z
 	}
 	if r.P(40) && !ex["real-padding"] {
